@@ -18,16 +18,6 @@ import (
 
 // ---- C14: benchstat puts each measurement in one cell and reports its true statistics ----
 
-type c14Flags struct {
-	Table, Row, Col, Ignore, Filter string
-	Alpha, Confidence               float64
-}
-
-func (f c14Flags) args() []string {
-	return []string{"-format", "csv", "-table", f.Table, "-row", f.Row, "-col", f.Col, "-ignore", f.Ignore, "-filter", f.Filter,
-		"-alpha", fmt.Sprint(f.Alpha), "-confidence", fmt.Sprint(f.Confidence)}
-}
-
 // filterKeep is the reference semantics of the four filters used.
 func filterKeep(filter string, m measurement) bool {
 	switch filter {
@@ -56,11 +46,6 @@ type expTableC14 struct {
 	cols  []string // labels
 	colFV map[string][][2]string
 	cells map[[2]string]*expCellC14 // (row label, col label)
-}
-
-type c14Case struct {
-	Shape dsShape
-	Flags c14Flags
 }
 
 func colOrderKey(fv [][2]string) string { return label(fv) }
@@ -386,101 +371,12 @@ func nearPct(s string, want float64) bool {
 	return math.Abs(got-want) <= 0.005000001
 }
 
-// normWarn sorts the key names of a "benchmarks vary in" warning: the property
-// fixes which keys are named, not their order.
-func normWarn(ws []string) []string {
-	out := make([]string, len(ws))
-	for i, w := range ws {
-		if rest, ok := strings.CutPrefix(w, "benchmarks vary in "); ok {
-			names := strings.Split(rest, ", ")
-			sort.Strings(names)
-			w = "benchmarks vary in " + strings.Join(names, ", ")
-		}
-		out[i] = w
-	}
-	return out
-}
-
 func sameWarnings(got, want []string) bool {
 	g := normWarn(got)
 	w := normWarn(want)
 	sort.Strings(g)
 	sort.Strings(w)
 	return strings.Join(g, "\n") == strings.Join(w, "\n")
-}
-
-func c14Shapes(thorough bool) []dsShape {
-	quick := []dsShape{
-		{Files: 1, Blocks: "a", Benches: 1, Units: "ns", Reps: 1, Pattern: "shifted"},
-		{Files: 2, Blocks: "a", Benches: 2, Units: "ns", Reps: 5, Pattern: "shifted"},
-		{Files: 2, Blocks: "ab", Benches: 3, Units: "ns+B", Reps: 2, Pattern: "shifted"},
-		{Files: 2, Blocks: "notes", Benches: 2, Units: "ns", Reps: 2, Pattern: "shifted"},
-		{Files: 3, Blocks: "a", Benches: 2, Units: "ns+x", Reps: 2, Pattern: "equal"},
-		{Files: 2, Labeled: true, Blocks: "ab", Benches: 3, Units: "ns", Reps: 5, Pattern: "shifted", Missing: true},
-		{Files: 2, Blocks: "a", Benches: 3, Units: "ns+B", Reps: 2, Pattern: "zero"},
-		{Files: 2, Blocks: "notes", Benches: 3, Units: "ns+x", Reps: 5, Pattern: "negative", Missing: true},
-		{Files: 1, Blocks: "ab", Benches: 3, Units: "ns+B", Reps: 5, Pattern: "shifted"},
-		{Files: 3, Labeled: true, Blocks: "notes", Benches: 1, Units: "ns", Reps: 1, Pattern: "equal"},
-		{Files: 2, Blocks: "ab", Benches: 2, Units: "ns+x", Reps: 1, Pattern: "negative"},
-		{Files: 1, Blocks: "notes", Benches: 3, Units: "ns", Reps: 2, Pattern: "zero"},
-		{Files: 2, Blocks: "a", Benches: 3, Units: "ns", Reps: 5, Pattern: "shifted", MissingFirst: true},
-		{Files: 2, Blocks: "ab", Benches: 2, Units: "ns+B", Reps: 2, Pattern: "shifted", Missing: true, MissingFirst: true},
-	}
-	var all []dsShape
-	for _, files := range []int{1, 2, 3} {
-		for _, labeled := range []bool{false, true} {
-			if labeled && files == 1 {
-				continue
-			}
-			for _, blocks := range []string{"a", "ab", "notes"} {
-				for _, benches := range []int{1, 3} {
-					for _, units := range []string{"ns", "ns+B", "ns+x"} {
-						for _, reps := range []int{1, 5} {
-							for _, pat := range []string{"shifted", "equal", "zero", "negative"} {
-								for _, missing := range []bool{false, true} {
-									if missing && (files == 1 || benches == 1) {
-										continue
-									}
-									if (reps == 1) != (pat == "equal" || pat == "zero") && units != "ns" {
-										continue
-									}
-									all = append(all, dsShape{files, labeled, blocks, benches, units, reps, pat, missing, missing && reps == 5})
-								}
-							}
-						}
-					}
-				}
-			}
-		}
-	}
-	if !thorough {
-		// quick: the hand-picked shapes plus every 6th shape of the grammar
-		for i := 0; i < len(all); i += 6 {
-			quick = append(quick, all[i])
-		}
-		return quick
-	}
-	return append(quick, all...)
-}
-
-func c14AllFlags() []c14Flags {
-	var out []c14Flags
-	for _, table := range []string{".config", "goos", ""} {
-		for _, row := range []string{".fullname", ".name", "/k"} {
-			for _, col := range []string{".file", "goos", "/k"} {
-				for _, ign := range []string{"", "note", "goos"} {
-					for _, flt := range []string{"*", ".unit:ns/op", "/k:1", "-.name:A"} {
-						for _, alpha := range []float64{0.05, 1} {
-							for _, conf := range []float64{0.95, 0.5} {
-								out = append(out, c14Flags{table, row, col, ign, flt, alpha, conf})
-							}
-						}
-					}
-				}
-			}
-		}
-	}
-	return out
 }
 
 func c14Replay(raw json.RawMessage) string {
